@@ -45,7 +45,9 @@ func script(ev *eval.Evaler, fds [3]*os.File, args []string, cfg *scriptCfg) int
 		}
 	}
 
-	src := parse.Source{Name: name, Code: code, IsFile: true}
+	// Code given with -c does not come from a file: relative imports in it
+	// resolve against the working directory, like at the prompt.
+	src := parse.Source{Name: name, Code: code, IsFile: !cfg.Cmd}
 	if cfg.CompileOnly {
 		parseErr, _, compileErr := ev.Check(src, fds[2])
 		if cfg.JSON {
